@@ -42,8 +42,6 @@ class Persona(object):
         self.overrides = dict(overrides or {})
         F = family
         self.status = status or r.choice(['S', 'S', 'MFJ', 'MFJ', 'MFS', 'HOH', 'QSS'])
-        if F == 'F8' and self.status == 'QSS':
-            self.status = r.choice(['S', 'MFJ', 'HOH', 'MFS'])
         joint = self.status == 'MFJ'
         self.joint = joint
         # dependants
@@ -105,10 +103,8 @@ class Persona(object):
         # 1098 / 1099-g / 1099-r
         self.itemize = F == 'F3' or (F in ('F8', 'F10') and r.random() < 0.4) or r.random() < 0.08
         self.nc = F == 'F8' or r.random() < 0.12
-        if self.nc and self.status == 'QSS':
-            self.nc = False
         need1098 = self.itemize or self.nc
-        self.n_1098 = r.choice([1, 1, 2]) if (need1098 or (F == 'F10' and r.random() < 0.7)) else 0
+        self.n_1098 = r.choice([1, 1, 2, 0]) if (need1098 or (F == 'F10' and r.random() < 0.7)) else 0
         self.f1098 = [{'box_1': round(r.uniform(500, 14000), 2), 'box_6': round(r.choice([0, 0, r.uniform(100, 2000)]), 2),
                        'box_4': round(r.choice([0, 0, r.uniform(10, 300)]) if F == 'F10' else 0, 2), 'box_5': 0.0} for _ in range(self.n_1098)]
         self.n_1099g = r.choice([1, 2]) if (F == 'F10' or r.random() < 0.08) else 0
